@@ -19,7 +19,7 @@ import torch
 
 torch.set_num_threads(1)
 
-from vlib import cb, cl, cn, co, cp, cz, coq_eval_bools, coq_eval_print, exc_kind, load_corpus, shrink
+from vlib import CoqError, cb, cl, cn, co, cp, cz, coq_eval_bools, coq_eval_print, exc_kind, load_corpus, shrink
 
 IMPORTS = "From PV Require Import C16.Model C16.Spec.\n"
 
@@ -391,6 +391,48 @@ def model_term(case, out):
     if "error" in out or any(o["outcome"] == "Raised-after-calls" for o in out["obs"]):
         return "false"
     return "check %s %s" % (model_args(case, out), cl([t_obs(o) for o in out["obs"]]))
+
+
+IMPORTS_SRC = "From PV Require Import C16.Model C16.SrcRun.\n"
+
+
+def src_term(case, out):
+    """bool: the regenerated source terms (PV.Gen.C16Src: get_last_epoch, get_best_epoch and the two file-logic blocks of
+    update_for_epoch), run by PV.MiniPy.Interp under ext16 inside Coq in place of Model.update_ops, give the
+    observations the implementation gave (same traces of file-system calls per update, same ValueError, same files)."""
+    if "error" in out or any(o["outcome"] == "Raised-after-calls" for o in out["obs"]):
+        return "false"
+    return "src_check %s %s" % (model_args(case, out), cl([t_obs(o) for o in out["obs"]]))
+
+
+def source_tie(chk, cases, outs, model_ok):
+    """run the translated source inside Coq on (a sample of) the runs of this check: validates translator + MiniPy
+    semantics + ext16 against CPython's recorded traces; independent of whether the tie lemmas still compile.
+    Only runs the model reproduces are used (a run the model misses is reported by the correspondence itself)."""
+    idx = [i for i, ok in enumerate(model_ok) if ok and "error" not in outs[i]]
+    cap = 1200 if chk.tier == "thorough" else 500
+    if len(idx) > cap:       # deterministic slice: every k-th run, all streams and both modes stay represented
+        step = len(idx) / float(cap)
+        idx = sorted(set(idx[int(j * step)] for j in range(cap)))
+    try:
+        res = coq_eval_bools(chk.workdir, IMPORTS_SRC, [src_term(cases[i], outs[i]) for i in idx], shard=100, tag="src")
+    except CoqError as e:
+        chk.extra["source_tie_run"] = "not evaluated: " + str(e)[-400:]
+        return
+    bad = [idx[j] for j, ok in enumerate(res) if not ok]
+    calls = sum(sum(len(o["log"]) for o in outs[i]["obs"]) for i in idx)
+    chk.extra["source_tie_run"] = {"runs": len(idx), "update_calls": calls, "disagreements": len(bad)}
+    chk.count("source_tie_runs", len(idx))
+    if bad:
+        i = bad[0]
+        chk.report({"case": cases[i], "impl": outs[i],
+                    "what": "the Python source as translated to MiniPy and interpreted in Coq (PV.C16.SrcRun.src_run: get_last_epoch, "
+                            "get_best_epoch and the file-operation blocks of update_for_epoch under ext16) does not reproduce the "
+                            "implementation's traces of file-system calls, although PV.C16.Model.run does: translator / interpreter / "
+                            "ext16 no longer describe the code",
+                    "correspondence": "tie:C16:py2coq+MiniPy.Interp:TrainingStateController.{update_for_epoch,get_best_epoch,get_last_epoch}",
+                    "theorems_at_stake": ["c16_source_update_is_model", "c16_source_best_epoch_is_model",
+                                          "c16_source_last_epoch_is_model"]}, no_failing_input=True)
 
 
 def spec_term(case, out, part=None):
@@ -780,6 +822,9 @@ def run(chk, cases=None):
     res = coq_eval_bools(chk.workdir, IMPORTS, terms)
     sres = coq_eval_bools(chk.workdir, IMPORTS, sterms, tag="spec")
     timing["coq_model_and_spec"] = round(time.time() - t0, 1)
+    t0 = time.time()
+    source_tie(chk, cases, outs, res)
+    timing["coq_source_tie"] = round(time.time() - t0, 1)
     bad = [i for i, ok in enumerate(res) if not ok]
     sbad = [i for i, ok in enumerate(sres) if not ok or outs[i].get("notes") or "error" in outs[i]]
     chk.extra["model_disagreements"] = len(bad)
